@@ -57,7 +57,7 @@ pub struct Limits {
 }
 
 fn limits_strategy(hi: u8) -> impl Strategy<Value = Limits> {
-    (1..=hi, 1..=hi.min(2), 1..=hi, 1..=hi.min(2)).prop_map(|(max_res, max_res_pp, max_circ, max_circ_pp)| Limits { max_res, max_res_pp, max_circ, max_circ_pp })
+    (1..=hi, 1..=hi - 1, 1..=hi, 1..=hi - 1).prop_map(|(max_res, max_res_pp, max_circ, max_circ_pp)| Limits { max_res, max_res_pp, max_circ, max_circ_pp })
 }
 
 fn relay_config(l: Limits) -> relay::Config {
@@ -84,6 +84,17 @@ fn relay_addr() -> Multiaddr {
 }
 fn client_addr(peer: usize, k: usize) -> Multiaddr {
     Multiaddr::empty().with(Protocol::Memory(2000 + 100 * peer as u64 + k as u64))
+}
+
+/// Destination of a CONNECT: `dst < NPEERS` names the peer; larger values pick among the peers that
+/// hold a reservation right now (falls back to `dst % NPEERS` when there is none).
+fn choose_dst(dst: u8, reserved: &[usize]) -> usize {
+    let d = dst as usize;
+    if d >= NPEERS && !reserved.is_empty() {
+        reserved[(d - NPEERS) % reserved.len()]
+    } else {
+        d % NPEERS
+    }
 }
 
 /// What is certainly active right now, as (peer index) lists.
@@ -353,7 +364,7 @@ fn op_a_strategy() -> impl Strategy<Value = OpA> {
         4 => (0u8..NPEERS as u8).prop_map(|peer| OpA::Open { peer }),
         1 => any::<u16>().prop_map(|conn| OpA::Close { conn }),
         6 => (any::<u16>(), sync).prop_map(|(conn, sync)| OpA::Reserve { conn, sync }),
-        7 => (any::<u16>(), 0u8..NPEERS as u8, sync2).prop_map(|(conn, dst, sync)| OpA::Connect { conn, dst, sync }),
+        7 => (any::<u16>(), 0u8..2 * NPEERS as u8, sync2).prop_map(|(conn, dst, sync)| OpA::Connect { conn, dst, sync }),
         3 => any::<u16>().prop_map(|conn| OpA::ToBeh { conn }),
         3 => any::<u16>().prop_map(|conn| OpA::ToHandler { conn }),
         3 => (any::<u16>(), any::<u16>(), prop::bool::weighted(0.8)).prop_map(|(conn, which, ok)| OpA::Progress { conn, which, ok }),
@@ -689,7 +700,7 @@ impl WorldA {
             OpA::Open { peer } => {
                 let peer = *peer as usize % NPEERS;
                 let of_peer = self.conns.iter().filter(|c| c.open && c.peer == peer).count();
-                if of_peer >= 3 || self.open_conns().len() >= 9 {
+                if of_peer >= 4 || self.open_conns().len() >= 10 {
                     return;
                 }
                 let id = ConnectionId::new_unchecked(self.conns.len() + 1);
@@ -771,7 +782,10 @@ impl WorldA {
                     return;
                 }
                 let i = open[pick(*conn, open.len())];
-                let dst = *dst as usize % NPEERS;
+                let mut reserved: Vec<usize> = self.conns.iter().filter(|c| c.open && c.active_res).map(|c| c.peer).collect();
+                reserved.sort();
+                reserved.dedup();
+                let dst = choose_dst(*dst, &reserved);
                 let (_, b, c) = self.request_values();
                 let req = CircuitReq::verif_new(client(dst), mint_stream(), b, c);
                 let endpoint = self.conns[i].endpoint.clone();
@@ -938,7 +952,7 @@ fn op_b_strategy() -> impl Strategy<Value = OpB> {
         4 => (0u8..NPEERS as u8).prop_map(|peer| OpB::Open { peer }),
         1 => any::<u16>().prop_map(|conn| OpB::Close { conn }),
         6 => (any::<u16>(), settle()).prop_map(|(conn, settle)| OpB::Reserve { conn, settle }),
-        7 => (any::<u16>(), 0u8..NPEERS as u8, settle()).prop_map(|(conn, dst, settle)| OpB::Connect { conn, dst, settle }),
+        7 => (any::<u16>(), 0u8..2 * NPEERS as u8, settle()).prop_map(|(conn, dst, settle)| OpB::Connect { conn, dst, settle }),
         6 => (any::<u16>(), prop_oneof![8 => Just(0u8), 1 => Just(1u8), 1 => Just(2u8)], settle()).prop_map(|(pick, how, settle)| OpB::Answer { pick, how, settle }),
         2 => (any::<u16>(), 0u8..3, settle()).prop_map(|(pick, side, settle)| OpB::EndCircuit { pick, side, settle }),
         1 => prop::collection::vec(any::<u16>(), 1..12).prop_map(|picks| OpB::Steps { picks }),
@@ -1259,7 +1273,13 @@ impl WorldB {
                             self.ok_circ += 1;
                             self.circuits.push(CircuitB { src_conn: p.src_conn, dst_conn: s.dst_conn, src_stream: Some(p.stream), dst_stream: s.stream.take(), alive: true });
                         }
-                        None => self.confused = Some("CONNECT answered OK without an accepted STOP request".into()),
+                        // the destination's answer was already on its way when its connection (or the
+                        // request) was given up by the harness: the circuit exists for the source only,
+                        // it is not counted (lower bound)
+                        None => {
+                            self.trace.push("    (destination side already gone: circuit not counted)".into());
+                            self.reach.labels.insert("circuit:ok-but-destination-gone");
+                        }
                     }
                 }
                 HopReply::Status(st) => {
@@ -1316,7 +1336,7 @@ impl WorldB {
             OpB::Open { peer } => {
                 let peer = *peer as usize % NPEERS;
                 let of_peer = self.conns.iter().filter(|c| c.open && c.peer == peer).count();
-                if of_peer >= 3 || self.open_conns().len() >= 9 {
+                if of_peer >= 4 || self.open_conns().len() >= 10 {
                     return;
                 }
                 let addr = client_addr(peer, self.conns.len());
@@ -1358,7 +1378,10 @@ impl WorldB {
                     return;
                 }
                 let i = open[pick(*conn, open.len())];
-                let dst = *dst as usize % NPEERS;
+                let mut reserved: Vec<usize> = self.conns.iter().filter(|c| c.open && c.reserved).map(|c| c.peer).collect();
+                reserved.sort();
+                reserved.dedup();
+                let dst = choose_dst(*dst, &reserved);
                 let src_peer = self.conns[i].peer;
                 // one CONNECT in flight per (source peer, destination peer): keeps the attribution of
                 // STOP requests to CONNECT requests unambiguous
@@ -1487,7 +1510,7 @@ pub fn run(ctx: &mut Ctx) {
     let max_ops = ctx.tier.sel(40usize, 70usize);
     ctx.check::<CaseA>(
         "behaviour-direct",
-        "limits 1..3 (per peer 1..2), 4 client peers with up to 3 connections each, 4..40 ops (open/close connection, RESERVE, CONNECT, deliver handler event, deliver command, complete handler I/O with ok/error, reservation timer fires, circuit ends, flush, quiesce); after every op the numbers of certainly-active reservations (per peer, total) and circuits (involving a peer, total) must not exceed the configured maxima; non-trivial = at least one request refused with RESOURCE_LIMIT_EXCEEDED and at least one reservation or circuit established",
+        "limits 1..3 (per peer 1..2; thorough 1..4 / 1..3), 4 client peers with up to 4 connections each, 4..40 ops (open/close connection, RESERVE, CONNECT, deliver handler event, deliver command, complete handler I/O with ok/error, reservation timer fires, circuit ends, flush, quiesce); after every op the numbers of certainly-active reservations (per peer, total) and circuits (involving a peer, total) must not exceed the configured maxima; non-trivial = at least one request refused with RESOURCE_LIMIT_EXCEEDED and at least one reservation or circuit established",
         ctx.n(30_000, 900_000),
         &move || case_a_strategy(max_ops, hi).boxed(),
         &run_a,
@@ -1497,8 +1520,8 @@ pub fn run(ctx: &mut Ctx) {
     let max_ops_b = ctx.tier.sel(36usize, 60usize);
     ctx.check::<CaseB>(
         "world",
-        "a real relay Swarm (limits 1..3, per peer 1..2, no rate limiters, status Enable) on the simulated transport; the harness plays 4 client peers with up to 3 connections each by hand on the wire: HOP RESERVE / CONNECT, answers the relay's STOP CONNECT with OK / PERMISSION_DENIED / stream close / never, ends circuits, closes connections, partial or full scheduling; after every op the reservations and circuits the relay confirmed with STATUS OK and the harness has not ended must be within the configured maxima; non-trivial = at least one RESOURCE_LIMIT_EXCEEDED answer and at least one OK answer",
-        ctx.n(4_000, 120_000),
+        "a real relay Swarm (limits 1..3, per peer 1..2; thorough 1..4 / 1..3; no rate limiters, status Enable) on the simulated transport; the harness plays 4 client peers with up to 4 connections each by hand on the wire: HOP RESERVE / CONNECT, answers the relay's STOP CONNECT with OK / PERMISSION_DENIED / stream close / never, ends circuits, closes connections, partial or full scheduling; after every op the reservations and circuits the relay confirmed with STATUS OK and the harness has not ended must be within the configured maxima; non-trivial = at least one RESOURCE_LIMIT_EXCEEDED answer and at least one OK answer",
+        ctx.n(24_000, 700_000),
         &move || case_b_strategy(max_ops_b, hi).boxed(),
         &run_b,
     );
